@@ -21,7 +21,7 @@ type Store struct {
 var _ storetypes.KVStore = (*Store)(nil)
 
 func (s *Store) GetStoreType() storetypes.StoreType { return storetypes.StoreTypeDB }
-func (s *Store) CacheWrap() storetypes.CacheWrap     { panic("vrt.Store: CacheWrap not supported") }
+func (s *Store) CacheWrap() storetypes.CacheWrap    { panic("vrt.Store: CacheWrap not supported") }
 func (s *Store) CacheWrapWithTrace(io.Writer, storetypes.TraceContext) storetypes.CacheWrap {
 	panic("vrt.Store: CacheWrapWithTrace not supported")
 }
@@ -96,6 +96,21 @@ func (s *Store) ReverseIterator(start, end []byte) storetypes.Iterator {
 	return s.iter(start, end, false)
 }
 
+// PrefixIter enumerates the entries whose key starts with prefix (keys are returned without the prefix).
+// It is what prefix.Store.Iterator(nil, nil) computes: [prefix, PrefixEndBytes(prefix)) is exactly that key set.
+func (s *Store) PrefixIter(prefix []byte, asc bool) *Iter {
+	var sel []KV
+	for _, e := range s.E {
+		if bytes.HasPrefix(e.K, prefix) {
+			sel = append(sel, e)
+		}
+	}
+	it := s.sorted(sel, asc)
+	it.strip = len(prefix)
+	it.skipDeleted()
+	return it
+}
+
 func (s *Store) iter(start, end []byte, asc bool) *Iter {
 	var sel []KV
 	for _, e := range s.E {
@@ -107,6 +122,13 @@ func (s *Store) iter(start, end []byte, asc bool) *Iter {
 		}
 		sel = append(sel, e)
 	}
+	it := s.sorted(sel, asc)
+	it.start, it.end = start, end
+	it.skipDeleted()
+	return it
+}
+
+func (s *Store) sorted(sel []KV, asc bool) *Iter {
 	// insertion sort by key
 	for i := 1; i < len(sel); i++ {
 		for j := i; j > 0; j-- {
@@ -118,9 +140,7 @@ func (s *Store) iter(start, end []byte, asc bool) *Iter {
 			}
 		}
 	}
-	it := &Iter{s: s, items: sel, start: start, end: end}
-	it.skipDeleted()
-	return it
+	return &Iter{s: s, items: sel}
 }
 
 // Iter enumerates the entries that matched at creation time, in key order, skipping entries deleted since.
@@ -129,6 +149,7 @@ type Iter struct {
 	items      []KV
 	pos        int
 	start, end []byte
+	strip      int
 }
 
 func (it *Iter) skipDeleted() {
@@ -150,7 +171,7 @@ func (it *Iter) Key() []byte {
 	if !it.Valid() {
 		panic("iterator is invalid")
 	}
-	return it.items[it.pos].K
+	return it.items[it.pos].K[it.strip:]
 }
 func (it *Iter) Value() []byte {
 	if !it.Valid() {
@@ -173,7 +194,7 @@ var _ storetypes.CacheMultiStore = (*MultiStore)(nil)
 func NewMultiStore() *MultiStore { return &MultiStore{} }
 
 func (m *MultiStore) GetStoreType() storetypes.StoreType { return storetypes.StoreTypeMulti }
-func (m *MultiStore) CacheWrap() storetypes.CacheWrap     { return m.CacheMultiStore() }
+func (m *MultiStore) CacheWrap() storetypes.CacheWrap    { return m.CacheMultiStore() }
 func (m *MultiStore) CacheWrapWithTrace(io.Writer, storetypes.TraceContext) storetypes.CacheWrap {
 	return m.CacheMultiStore()
 }
@@ -224,5 +245,5 @@ func (m *MultiStore) SetTracer(io.Writer) storetypes.MultiStore             { re
 func (m *MultiStore) SetTracingContext(storetypes.TraceContext) storetypes.MultiStore {
 	return m
 }
-func (m *MultiStore) ListeningEnabled(storetypes.StoreKey) bool                     { return false }
+func (m *MultiStore) ListeningEnabled(storetypes.StoreKey) bool                    { return false }
 func (m *MultiStore) AddListeners(storetypes.StoreKey, []storetypes.WriteListener) {}
